@@ -217,13 +217,13 @@ func init() {
 			"(E4.decode-produces) conversely, every native type has a decoder row; (E3.config-api-symmetry) every neighbour / peer-group / global configuration field the API→config converters accept is written back by the config→API converters; (E3.statement-provenance) the listed conditions of a policy statement are computed from its conditions and the listed actions from its actions. Also: (E2.loop-carried-struct) a struct copied into a collection per loop element is declared or wholly overwritten inside the iteration. (E4.case-ratchet) against a committed baseline, no switch of the code this property is anchored in has lost a named case. (E6.call-ratchet) against a committed baseline, no function of that code has stopped calling (directly or through helpers) a non-trivial callee it called on the reviewed tree.",
 		Not: "That each value is converted correctly (field by field, byte for byte) and that API→native→API is the identity are value-level and not decided.",
 		Run: func(c *Ctx) {
+			c.ruleRatchets("C18")
 			c.ruleAPIMarshalTotal()
 			c.ruleAPIUnmarshalTotal()
 			c.ruleDecodeProduces("E4.decode-produces", []string{"pkg/packet/bgp"}, 200)
 			c.ruleConfigAPISymmetry()
 			c.ruleStatementProvenance()
 			c.ruleCaseRatchet("E4.case-ratchet", []string{"pkg/apiutil", "pkg/config/oc", "pkg/server"}, func(f string) bool {
-			c.ruleCallRatchet("E6.call-ratchet", []string{"pkg/apiutil", "pkg/config/oc", "pkg/server"}, func(f string) bool { return !strings.Contains(f, "pkg/server/") || strings.HasSuffix(f, "grpc_server.go") }, "baselines/calls.json", 100)
 				return !strings.Contains(f, "pkg/server/") || strings.HasSuffix(f, "grpc_server.go")
 			}, "baselines/switches.json", 50)
 			c.ruleLoopCarriedStruct("E2.loop-carried-struct", []string{"pkg/server", "pkg/config/oc", "pkg/apiutil"}, 5)
